@@ -627,12 +627,16 @@ class FnTr:
                 if getattr(v, 'raises', False):
                     nm = self.gensym(lname(t.id))
                     self.env[t.id] = Val(nm, v.typ, path=t.id)
+                    self.env[t.id].fresh_dict = getattr(v, 'fresh_dict', False)
                     self.narrow.pop(t.id, None)
+                    pend, self.pending = self.pending, []       # raising calls among the arguments are bound before this call
                     inner = self.block(rest)
-                    return '\n'.join(lets + [f'match {v.text} with', '| Except.error e => Except.error e', f'| Except.ok {nm} =>', _indent(inner)])
+                    self.pending = pend
+                    return self.wrap('\n'.join(lets + [f'match {v.text} with', '| Except.error e => Except.error e', f'| Except.ok {nm} =>', _indent(inner)]))
                 nm = self.gensym(lname(t.id))
                 if self.pending:
                     self.env[t.id] = Val(nm, v.typ, path=t.id)
+                    self.env[t.id].fresh_dict = getattr(v, 'fresh_dict', False)
                     self.narrow.pop(t.id, None)
                     pend, self.pending = self.pending, []
                     inner = self.block(rest) if (t, v) == pairs[-1] else None
@@ -664,6 +668,8 @@ class FnTr:
         if s.orelse:
             raise Unsupported(f'`{self.inst.qual}`: for/else')
         xs = self.expr(s.iter)
+        if not xs.typ.startswith('List ') and 'iter' in self.u.hooks:
+            xs = self.u.hooks['iter'](self, xs) or xs
         if not xs.typ.startswith('List '):
             raise Unsupported(f'`{self.inst.qual}`: loop over {xs.typ}')
         pair = isinstance(s.target, ast.Tuple) and len(s.target.elts) == 2 and all(isinstance(t, ast.Name) for t in s.target.elts) \
@@ -1460,6 +1466,10 @@ class FnTr:
             r = self.or_value(e)
             if r is not None:
                 return r
+        if isinstance(e, ast.BoolOp) and isinstance(e.op, ast.Or) and len(e.values) == 2 and isinstance(e.values[1], ast.Dict) \
+                and not e.values[1].keys and 'or_dict' in self.u.hooks:
+            # `<call> or {}`
+            return self.u.hooks['or_dict'](self, self.expr(e.values[0]))
         hook = self.u.hooks.get('expr')
         return hook(self, e) if hook else None
 
@@ -1563,6 +1573,8 @@ class FnTr:
         if not (isinstance(tgt, ast.Name) or pair) or gen.ifs:
             raise Unsupported(f'`{self.inst.qual}`: comprehension target `{ast.unparse(tgt)}`')
         xs = self.expr(gen.iter)
+        if not xs.typ.startswith('List ') and 'iter' in self.u.hooks:
+            xs = self.u.hooks['iter'](self, xs) or xs            # e.g. iteration over a JSON value
         if not xs.typ.startswith('List '):
             raise Unsupported(f'comprehension over {xs.typ}')
         x = self.gensym(lname(tgt.id) if not pair else 'pair')
